@@ -47,7 +47,7 @@ pub fn check_isolation(case: &C11Case, tr: &Trace) -> Result<Vec<&'static str>, 
     for i in 0..ids.len() {
         match tr.put_ids[i] {
             // (a puppet sender has no daemon that could answer)
-            None if !sc.entities[sc.puts[i].from].present => {}
+            None if !sc.entities[sc.puts[i].from].present || sc.puts[i].forget => {}
             None => return Err(fail(tr, "put-not-answered", format!("Put #{i} never got a transaction id"))),
             Some(id) => {
                 for j in 0..i {
@@ -264,6 +264,8 @@ pub fn build(seed: u64, lossy: bool, with_strays: bool, with_replay: bool, bound
             dst_name: format!("in_from_{from}/dst_{k}.bin"),
             requests: vec![],
             messages: vec![],
+            // one Put in five is fire-and-forget: the user drops the answer channel (ids are still consumed in order)
+            forget: rng.chance(1, 5),
         });
     }
     if lossy {
@@ -432,6 +434,7 @@ pub fn build_burst(seed: u64) -> C11Case {
             dst_name: format!("in_from_0/dst_{k}.bin"),
             requests: vec![],
             messages: vec![],
+            forget: false,
         });
     }
     // all datagrams of all puts in one instant, the puts interleaved
@@ -466,7 +469,7 @@ fn rng_bool(seed: u64, j: u64) -> bool {
 }
 
 pub fn run(ctx: &mut Ctx) {
-    ctx.rule = "seeded generation: 2-3 real daemons (id widths 1/2/4/8, different configurations per daemon), 2..8 (one in four: up to 24) Puts issued within 30 ms in any direction (in half of the scenarios all daemons number their transactions from the same start value), acknowledged and unacknowledged, sizes \
+    ctx.rule = "seeded generation: 2-3 real daemons (id widths 1/2/4/8, different configurations per daemon), 2..8 (one in four: up to 24) Puts issued within 30 ms in any direction (in half of the scenarios all daemons number their transactions from the same start value; one Put in five is fire-and-forget: its user drops the channel on which the id is answered), acknowledged and unacknowledged, sizes \
 {0,1,seg,3seg+5,6seg}, contents tagged per transaction, destinations in per-sender directories; six families: loss-free, loss-free + strays, one lost datagram per directed link (acknowledged Puts must still succeed) with and without strays, lossy (per-datagram loss 1..20 %, delays, duplicates on every link) + strays, and \
 loss-free + strays + replay of a random subset of the PDUs of Put #0 after it has ended, plus reflections of its PDUs back to the entity that emitted them around the end of that transaction. Strays (1..12 per scenario, plus up to 3 responses that carry the sequence number of a live send transaction but another source entity): ACK/NAK/Finished for a sender that does not exist, PDUs naming entity 77 (no transport), Metadata / FileData / EOF / \
 Prompt / ACK(Finished) with fresh ids from a known peer. A seventh family hands 120..320 datagrams of one or two unacknowledged transfers (puppet sender) to the daemon in one instant while the receive transactions are polled late (H5), so that a transaction's mailbox runs full. Non-trivial = two transactions overlapped in time on one daemon, or at least one stray PDU was routed, or a burst of more than 100 datagrams was handed over; distinct by scenario."
